@@ -53,6 +53,22 @@ def rule_n0(chk: Check, ix: Index):
             chk.require(kind is not None, "N0-state-inventory", f"{q}:{owner}.{attr.attr}(alias)", f"{f.rel}:{n.lineno}",
                         f"`{norm_stmt(n)[:60]}` mutates `{owner}.{attr.attr}` through a local alias; that state is not position-keyed and has "
                         f"no set/reset pairing, so it carries over from one statement (or macro) into the next")
+        # containers held by the state objects and mutated in place: state.<attr>.append(..) and the like
+        for n in own_nodes(f.node):
+            if not (isinstance(n, ast.Call) and isinstance(n.func, ast.Attribute) and isinstance(n.func.value, ast.Attribute)
+                    and n.func.attr in ("append", "add", "update", "pop", "clear", "setdefault", "extend", "insert", "remove", "popitem", "discard")):
+                continue
+            attr = n.func.value
+            holder = norm_stmt(attr.value)
+            owner = f.cls if holder == "self" else "Tokenizer" if holder == "self._tokenizer" else OWNER_OF_VAR.get(holder) if holder in (
+                "state", "endprog", "prog") else "EndProg" if holder in ("self.end_progs[-1]", "state.end_progs[-1]") else None
+            if owner in (None, "TokenInfo"):
+                continue
+            chk.count("N0-state-inventory")
+            kind = CLASSIFIED.get((owner, attr.attr))
+            chk.require(kind is not None, "N0-state-inventory", f"{q}:{owner}.{attr.attr}.{n.func.attr}", f"{f.rel}:{n.lineno}",
+                        f"`{norm_stmt(n)[:60]}` changes `{owner}.{attr.attr}` in place; that state is not position-keyed, not a balanced "
+                        f"counter and has no push/pop pairing that a rule discharges: what one statement leaves in it is seen by the next")
         for n in own_nodes(f.node):
             tgts = n.targets if isinstance(n, ast.Assign) else ([n.target] if isinstance(n, (ast.AugAssign, ast.AnnAssign)) else [])
             flat = []
